@@ -86,6 +86,7 @@ type GhostDef struct {
 }
 
 type PatGuard struct {
+	Used    bool
 	Pattern *regexp.Regexp
 	Ordinal int // 0 = every call site; n = the n-th call site (source order) of a matching callee
 	Cond    Clause
@@ -432,7 +433,11 @@ func (cs *ContractSet) LoadFile(path, defaultPkg string) {
 					m[1] = mo[1]
 					fmt.Sscanf(mo[2], "%d", &ord)
 				}
-				rx, err := regexp.Compile("^(" + m[1] + ")$")
+				pat := "^(" + m[1] + ")$"
+				if word == "guard-store" {
+					pat = m[1] // leaf names carry a package prefix: search, do not anchor
+				}
+				rx, err := regexp.Compile(pat)
 				if err != nil {
 					fail(fmt.Errorf("%s: %v", src, err))
 					continue
@@ -447,9 +452,9 @@ func (cs *ContractSet) LoadFile(path, defaultPkg string) {
 					c.Label = word
 				}
 				if word == "guard-call" {
-					cur.CallGuards = append(cur.CallGuards, PatGuard{rx, ord, c})
+					cur.CallGuards = append(cur.CallGuards, PatGuard{false, rx, ord, c})
 				} else {
-					cur.StoreGuards = append(cur.StoreGuards, PatGuard{rx, 0, c})
+					cur.StoreGuards = append(cur.StoreGuards, PatGuard{false, rx, 0, c})
 				}
 			case "guard":
 				c, err := parseClause(rest, src)
